@@ -167,6 +167,22 @@ Proof. intros (HL & Hk & Hf) (HL2 & Hk2 & Hf2). set (F := fun v => op (d_get v 0
   - replace (tab n (fun v => op (nthZ D v) (nthZ E v))) with (tab n (fun v => d_get v 0 L)); [exact Hrep|]. apply tab_ext. intros v Hv. unfold d_get, L. rewrite d_find_graph_of.
     rewrite (s_mem_perm v _ _ (Hso vs)), (Hvs v). destruct (Nat.ltb_spec v n); [apply HF; exact Hv|lia]. Qed.
 
+(* the constructor on [(v, F v) for v in V] *)
+Lemma fun_ctor (F : nat -> Z) :
+  exists dd', CFDivisor___init__ so vs gg (map (fun v => (v, F v)) (so vs)) = PyOk (dd', zsum F (seq 0 n)) /\ rep_div n dd' (tab n F).
+Proof. set (L := map (fun v => (v, F v)) (so vs)).
+  assert (Hkeys : map fst L = so vs). { unfold L. rewrite map_map. cbn [fst]. apply map_id. }
+  assert (Hsn : NoDup (so vs)) by (apply (Permutation_NoDup (Permutation_sym (Hso vs))); exact Hnd).
+  pose proof (ctor_refines L) as H.
+  assert (Hok : ctor_ok L = true).
+  { unfold ctor_ok. rewrite Hkeys. apply andb_true_iff. split; [apply nodupb_NoDup; exact Hsn|]. apply forallb_forall. intros [k x] Hin. cbn [fst].
+    assert (Hin' : In k (so vs)). { rewrite <- Hkeys. apply in_map_iff. exists (k, x). split; [reflexivity|exact Hin]. }
+    apply (Permutation_in _ (Hso vs)) in Hin'. apply s_mem_In in Hin'. rewrite (Hvs k) in Hin'. exact Hin'. }
+  destruct (CFDivisor___init__ so vs gg L) as [[dd' t]|e]; [|congruence]. destruct H as (_ & Hrep & Ht). exists dd'. split.
+  - f_equal. f_equal. rewrite Ht. unfold L. rewrite zsum_map. cbn [snd]. rewrite (zsum_perm _ _ _ (Hso vs)), (zsum_perm _ _ _ vs_perm_seq). reflexivity.
+  - replace (tab n F) with (tab n (fun v => d_get v 0 L)); [exact Hrep|]. apply tab_ext. intros v Hv. unfold d_get, L. rewrite d_find_graph_of.
+    rewrite (s_mem_perm v _ _ (Hso vs)), (Hvs v). destruct (Nat.ltb_spec v n); [reflexivity|lia]. Qed.
+
 Theorem add_refines dd D n2 vs2 dd2 E : rep_div n dd D -> rep_vset n2 vs2 -> rep_div n2 dd2 E ->
   if Nat.eqb n n2 then exists dd', CFDivisor___add__ vs dd gg so vs2 dd2 = PyOk (dd', zsum (nthZ D) (seq 0 n) + zsum (nthZ E) (seq 0 n)) /\ rep_div n dd' (dadd n D E)
   else CFDivisor___add__ vs dd gg so vs2 dd2 = PyExn tt.
